@@ -90,6 +90,24 @@ def unit_CtrlMethods():
             raise G.P.Untranslatable(f"{fn.name}: a registered handler must be one if/elif/else chain or one _perform_transition call")
         for st in body:
             node = st
+            # `self._perform_transition(X if c else Y)` is the branch form `if c: self._perform_transition(X) else: self._perform_transition(Y)`
+            if isinstance(st, ast.Expr) and isinstance(st.value, ast.Call) and G.P.dotted(st.value.func) == "self._perform_transition" \
+                    and len(st.value.args) == 1 and isinstance(st.value.args[0], ast.IfExp):
+                e = st.value.args[0]
+                attr = ""
+                while isinstance(e, ast.IfExp):
+                    t = e.test
+                    if not (isinstance(t, ast.Compare) and len(t.ops) == 1 and isinstance(t.ops[0], ast.Eq) and self_attr(t.left)
+                            and isinstance(t.comparators[0], ast.Constant) and isinstance(t.comparators[0].value, str)
+                            and isinstance(e.body, ast.Constant) and isinstance(e.body.value, str)):
+                        raise G.P.Untranslatable(f"{fn.name}: conditional argument {ast.unparse(e)[:80]!r}")
+                    attr = self_attr(t.left)
+                    rows_.append((attr, t.comparators[0].value, e.body.value))
+                    e = e.orelse
+                if not (isinstance(e, ast.Constant) and isinstance(e.value, str)):
+                    raise G.P.Untranslatable(f"{fn.name}: conditional argument {ast.unparse(e)[:80]!r}")
+                rows_.append((attr, "*", e.value))
+                continue
             if isinstance(node, ast.If):
                 while isinstance(node, ast.If):
                     t = node.test
